@@ -15,10 +15,19 @@ def _prim(rng):
     return rng.random() < 0.4
 
 
-def case_avc(rng):
+def _big(big):
+    """(n, edges, grid) of a deterministic medium / large instance: big = ('graph', n, edges) | ('grid', h, w)."""
+    if big[0] == "grid":
+        return big[1] * big[2], graphs.grid_edges(big[1], big[2]), (big[1], big[2])
+    return big[1], [tuple(e) for e in big[2]], None
+
+
+def case_avc(rng, big=None):
     from cspuz import graph as G
     from cspuz.array import BoolArray1D, BoolArray2D
-    if rng.random() < 0.3:   # 2-D array form
+    if big is not None:
+        n, edges, grid = _big(big)
+    elif rng.random() < 0.3:   # 2-D array form
         h, w = rng.randint(1, 4), rng.randint(1, 4)
         n, edges = h * w, graphs.grid_edges(h, w)
         grid = (h, w)
@@ -27,12 +36,12 @@ def case_avc(rng):
         grid = None
     acyclic = rng.random() < 0.5
     prim = _prim(rng)
-    wronglen = rng.random() < 0.04 and grid is None
+    wronglen = rng.random() < 0.04 and grid is None and big is None
     st = {}
 
     def build(s):
         bs, ins = _decl_callers(s, rng, max(1, n), 2)
-        ia = graphs.bool_forms(rng, s, n, 2, n + (rng.choice([-1, 1]) if wronglen else 0), plain=(grid is not None))
+        ia = graphs.bool_forms(rng, s, n, 2, n + (rng.choice([-1, 1]) if wronglen else 0), plain=(grid is not None or big is not None))
         st["ia"] = ia
         if grid:
             arr = BoolArray2D(ia, grid)
@@ -49,15 +58,15 @@ def case_avc(rng):
     return real, line, desc
 
 
-def case_acyclic(rng):
+def case_acyclic(rng, big=None):
     from cspuz import graph as G
-    n, edges = graphs.rand_graph(rng, 6)
+    n, edges = graphs.rand_graph(rng, 6) if big is None else _big(big)[:2]
     m = len(edges)
     st = {}
 
     def build(s):
         _decl_callers(s, rng, max(1, m), 2)
-        ie = graphs.bool_forms(rng, s, max(1, m), 2, m)
+        ie = graphs.bool_forms(rng, s, max(1, m), 2, m, plain=big is not None)
         st["ie"] = ie
         from cspuz.array import BoolArray1D
         arg = BoolArray1D(ie) if (ie and all(not isinstance(x, bool) for x in ie) and rng.random() < 0.4) else ie
@@ -68,12 +77,12 @@ def case_acyclic(rng):
     return real, line, {"fn": "active_edges_acyclic", "n": n, "edges": edges, "ie": [pexpr(x) for x in st.get("ie", [])]}
 
 
-def case_nadj(rng):
+def case_nadj(rng, big=None):
     from cspuz import graph as G
     from cspuz.array import BoolArray2D
     st = {}
-    if rng.random() < 0.5:
-        h, w = rng.randint(1, 4), rng.randint(1, 4)
+    if (rng.random() < 0.5) if big is None else (big[0] == "grid"):
+        h, w = (rng.randint(1, 4), rng.randint(1, 4)) if big is None else (big[1], big[2])
 
         def build(s):
             _decl_callers(s, rng, h * w, 0)
@@ -84,7 +93,7 @@ def case_nadj(rng):
         real = graphs.capture(build)
         line = sx(["nadj_grid", h, w, [pexpr(x) for x in st.get("ia", [])]])
         return real, line, {"fn": "not_adjacent(grid)", "h": h, "w": w}
-    n, edges = graphs.rand_graph(rng, 6)
+    n, edges = graphs.rand_graph(rng, 6) if big is None else _big(big)[:2]
 
     def build(s):
         _decl_callers(s, rng, n, 0)
@@ -97,12 +106,12 @@ def case_nadj(rng):
     return real, line, {"fn": "not_adjacent(graph)", "n": n, "edges": edges}
 
 
-def case_nseg(rng):
+def case_nseg(rng, big=None):
     from cspuz import graph as G
     from cspuz.array import BoolArray1D, BoolArray2D
     st = {}
-    if rng.random() < 0.6:
-        h, w = rng.randint(1, 5), rng.randint(1, 5)
+    if (rng.random() < 0.6) if big is None else (big[0] == "grid"):
+        h, w = (rng.randint(1, 5), rng.randint(1, 5)) if big is None else (big[1], big[2])
 
         def build(s):
             _decl_callers(s, rng, h * w, 0)
@@ -113,7 +122,7 @@ def case_nseg(rng):
         real = graphs.capture(build)
         line = sx(["nseg_grid", h, w, [pexpr(x) for x in st.get("ia", [])], h * w, False])
         return real, line, {"fn": "not_segmenting(grid)", "h": h, "w": w}
-    n, edges = graphs.rand_graph(rng, 6)
+    n, edges = graphs.rand_graph(rng, 6) if big is None else _big(big)[:2]
 
     def build(s):
         _decl_callers(s, rng, n, 0)
@@ -141,11 +150,22 @@ def _int_forms(rng, s, n, k):
     return out
 
 
-def case_divconn(rng):
+def _big_roots(rng, n, k):
+    """roots for a large instance: vertex ids from the top of the index range (>= 257 when there are that many), with a None hole."""
+    roots = [rng.choice([n - 1, n - 2, max(0, n - 1 - rng.randint(0, min(n - 1, 40)))]) for _ in range(k)]
+    roots[rng.randrange(k)] = None
+    if k >= 2 and all(r is None for r in roots):
+        roots[0] = n - 1
+    return roots
+
+
+def case_divconn(rng, big=None):
     from cspuz import graph as G
     from cspuz.array import IntArray1D, IntArray2D
     grid = None
-    if rng.random() < 0.3:
+    if big is not None:
+        n, edges, grid = _big(big)
+    elif rng.random() < 0.3:
         h, w = rng.randint(1, 3), rng.randint(1, 4)
         n, edges = h * w, graphs.grid_edges(h, w)
         grid = (h, w)
@@ -154,7 +174,10 @@ def case_divconn(rng):
     k = rng.randint(1, 4)
     allow_empty = rng.random() < 0.5
     roots = None
-    if rng.random() < 0.6:
+    if big is not None:
+        k = rng.randint(2, 4)
+        roots = _big_roots(rng, n, k)
+    elif rng.random() < 0.6:
         roots = [rng.choice([None, rng.randrange(n)]) for _ in range(rng.randint(0, k))]
     st = {}
 
@@ -178,15 +201,18 @@ def case_divconn(rng):
                         "allow_empty": allow_empty, "grid": grid}
 
 
-def case_divconn_prim(rng):
+def case_divconn_prim(rng, big=None):
     """private entry with use_graph_primitive=True (the public wrapper has no such argument; it follows config)."""
     from cspuz import graph as G
     from cspuz.array import IntArray1D
-    n, edges = graphs.rand_graph(rng, 5)
+    n, edges = graphs.rand_graph(rng, 5) if big is None else _big(big)[:2]
     k = rng.randint(1, 3)
     allow_empty = rng.random() < 0.5
     roots = None
-    if rng.random() < 0.5:
+    if big is not None:
+        k = rng.randint(2, 3)
+        roots = _big_roots(rng, n, k)
+    elif rng.random() < 0.5:
         roots = [rng.choice([None, rng.randrange(n)]) for _ in range(rng.randint(0, k))]
     st = {}
 
@@ -205,8 +231,24 @@ def case_divconn_prim(rng):
     return real, line, {"fn": "_division_connected(prim)", "n": n, "edges": edges, "k": k, "roots": roots}
 
 
-def _gs(rng, s, n, ints):
+def _size_vars(rng, s, count, n):
+    """`count` IntVars meant as group sizes.  Half of the time all declared 1..n (as the puzzle programs do); otherwise every variable
+    gets its own NARROW declared domain (singletons k..k, a..a+1, a..a+2): neighbouring vertices then have size variables whose
+    declared domains share no value, exactly one value, or several -- whatever the encoder derives from `lo` / `hi` shows up."""
+    n = max(1, n)
+    if rng.random() < 0.5:
+        return [s.int_var(1, n) for _ in range(count)]
+    out = []
+    for _ in range(count):
+        lo = rng.randint(1, min(n, 6))
+        out.append(s.int_var(lo, lo + rng.choice([0, 0, 1, 1, 2])))
+    return out
+
+
+def _gs(rng, s, n, ints, big=False):
     r = rng.random()
+    if big:
+        r = 0.5 + r / 2
     if r < 0.25:
         return None, "none"
     if r < 0.4:
@@ -214,6 +256,9 @@ def _gs(rng, s, n, ints):
         return v, ["scalar", v]
     if r < 0.5:
         return ints[0], ["scalar", pexpr(ints[0])]
+    if r < 0.7 and len(ints) >= n:      # every vertex its own size variable
+        l = list(ints[:n])
+        return l, ["per"] + [pexpr(x) for x in l]
     l = []
     for i in range(n):
         q = rng.random()
@@ -221,10 +266,12 @@ def _gs(rng, s, n, ints):
     return l, ["per"] + [pexpr(x) for x in l]
 
 
-def case_vgroups(rng):
+def case_vgroups(rng, big=None):
     from cspuz import graph as G
     grid = None
-    if rng.random() < 0.3:
+    if big is not None:
+        n, edges, grid = _big(big)
+    elif rng.random() < 0.3:
         h, w = rng.randint(1, 3), rng.randint(1, 3)
         n, edges = h * w, graphs.grid_edges(h, w)
         grid = (h, w)
@@ -233,8 +280,8 @@ def case_vgroups(rng):
     st = {}
 
     def build(s):
-        ints = [s.int_var(1, n) for _ in range(max(1, n))]
-        gs, desc = _gs(rng, s, n, ints)
+        ints = _size_vars(rng, s, max(1, n), n)
+        gs, desc = _gs(rng, s, n, ints, big is not None)
         st["gs"] = desc
         if grid:
             if isinstance(gs, list):
@@ -256,24 +303,25 @@ def case_vgroups(rng):
     return real, line, {"fn": "division_connected_variable_groups", "n": n, "edges": edges, "gs": st.get("gs"), "grid": grid}
 
 
-def case_vgborders(rng):
+def case_vgborders(rng, big=None):
     from cspuz import graph as G
-    n, edges = graphs.rand_graph(rng, 5)
+    n, edges = graphs.rand_graph(rng, 5) if big is None else _big(big)[:2]
     m = len(edges)
     prim = _prim(rng)
     st = {}
 
     def build(s):
-        ints = [s.int_var(1, n) for _ in range(max(1, n))]
+        ints = _size_vars(rng, s, max(1, n), n)
         bs = [s.bool_var() for _ in range(max(1, m))]
-        gs, desc = _gs(rng, s, n, ints)
+        gs, desc = _gs(rng, s, n, ints, big is not None)
         real_gs = gs
         if not isinstance(gs, list):
             # `group_size=None` goes to the real wrapper as None (it must mean "no size anywhere"); a scalar is spread here
             real_gs = None if gs is None else [gs] * n
             gs = [gs] * n if gs is not None else [None] * n
         st["gs"] = [pexpr(x) for x in gs]
-        bd = graphs.bool_forms(rng, type("S", (), {"variables": bs})(), max(1, m), 0, m, allow_const=rng.random() < 0.2)
+        bd = graphs.bool_forms(rng, type("S", (), {"variables": bs})(), max(1, m), 0, m, allow_const=rng.random() < 0.2,
+                               plain=big is not None)
         st["bd"] = [pexpr(x) for x in bd]
         return lambda: G.division_connected_variable_groups_with_borders(s, group_size=real_gs, is_border=bd, graph=mk,
                                                                        use_graph_primitive=prim)
@@ -283,16 +331,20 @@ def case_vgborders(rng):
     return real, line, {"fn": "division_connected_variable_groups_with_borders", "n": n, "edges": edges, "prim": prim}
 
 
-def case_cycle(rng, path=False):
+def case_cycle(rng, path=False, big=None):
+    """big instances: the model's line graph is cubic in the number of edges, so the primitive route (and the path, which has no other
+    route) only gets the few-edge large graphs."""
     from cspuz import graph as G
-    n, edges = graphs.rand_graph(rng, 6, allow_loops=False)
+    n, edges = graphs.rand_graph(rng, 6, allow_loops=False) if big is None else _big(big)[:2]
     m = len(edges)
     prim = True if path else _prim(rng)
+    if big is not None and not path:
+        prim = prim and m <= 50
     st = {}
 
     def build(s):
         bs = [s.bool_var() for _ in range(max(1, m))]
-        ie = graphs.bool_forms(rng, s, max(1, m), 0, m, allow_const=rng.random() < 0.3)
+        ie = graphs.bool_forms(rng, s, max(1, m), 0, m, allow_const=rng.random() < 0.3, plain=big is not None)
         st["ie"] = [pexpr(x) for x in ie]
 
         def call():
@@ -384,14 +436,40 @@ def _compare_exact(real, out, with_ids=False, native_sets=False):
     return None if rp == mp else (sx(rp), sx(mp))
 
 
-def run_cases(ctx, casefn, count, label, with_ids=False, native_sets=False):
+def graph_bigs(kind="all"):
+    return [("graph", n, es) for n, es in graphs.big_graphs(kind)]
+
+
+def grid_bigs():
+    return [("grid", h, w) for h, w in graphs.BIG_GRIDS]
+
+
+def frame_bigs():
+    return [("frame", h, w) for h, w in graphs.BIG_FRAMES]
+
+
+def run_cases(ctx, casefn, count, label, with_ids=False, native_sets=False, bigs=()):
+    """`count` random cases, then one case per entry of `bigs` (deterministic medium / LARGE instances, see graphs.big_graphs: a
+    handful per run; what depends on the size of an instance -- vertex ids >= 257, index blocks, rank ranges -- only shows there)."""
     drv = core.Driver()
-    cases, states = [], []
-    for _ in range(count):
+    cases, states, bigof = [], [], []
+    for k in range(count + len(bigs)):
         states.append(ctx.rng.getstate())
-        cases.append(casefn(ctx.rng))
+        big = bigs[k - count] if k >= count else None
+        bigof.append(big)
+        cases.append(casefn(ctx.rng) if big is None else casefn(ctx.rng, big=big))
     outs = drv.run([c[1] for c in cases])
-    for (real, line, desc), out, st in zip(cases, outs, states):
+    for (real, line, desc), out, st, big in zip(cases, outs, states, bigof):
+        if big is not None:
+            ctx.count(label + ":big-instance")
+            desc = dict(desc)
+            for key in ("edges", "ia", "ie"):
+                if key in desc and len(desc[key]) > 24:
+                    desc[key] = "%s ... (%d items)" % (str(desc[key][:8])[:-1], len(desc[key]))
+            if big[0] == "graph":
+                desc["instance"] = ("graphs.long_graph(%d)" if list(big[2]) == graphs.long_graph(big[1])[1] else "graphs.sparse_graph(%d)") % big[1]
+            else:
+                desc["instance"] = list(big)
         ctx.count(label + (":err:" + real[1] if real[0] == "err" else ":ok"))
         d = compare(real, out, with_ids, native_sets)
         if real[0] == "err" and (out.startswith("(prog") or out.startswith("(res")):
@@ -402,7 +480,8 @@ def run_cases(ctx, casefn, count, label, with_ids=False, native_sets=False):
             ctx.concrete.append(core.Finding(
                 "raises:%s:%s" % (label, real[1]),
                 "%s raises %s; the documented behaviour (model + totality theorem) is to post the constraints" % (desc, real[1]),
-                {"kind": "graphcorr", "casefn": casefn.__name__, "rng_state": [st[0], list(st[1]), st[2]], "call": desc}))
+                {"kind": "graphcorr", "casefn": casefn.__name__, "rng_state": [st[0], list(st[1]), st[2]], "call": desc,
+                 "big": None if big is None else [big[0], big[1], [list(e) for e in big[2]] if big[0] == "graph" else big[2]]}))
         nontriv = real[0] == "ok" and len(real[1]) > 40
         ctx.case({"call": desc, "program": (real[1][:300] if real[0] == "ok" else real[1])}, line if nontriv else None)
         if d is not None:
@@ -411,18 +490,20 @@ def run_cases(ctx, casefn, count, label, with_ids=False, native_sets=False):
         ctx.extra["programs_equal_only_up_to_renaming_of_auxiliary_variables"] = ALPHA_MATCHES[0]
 
 
-def case_path(rng):
-    return case_cycle(rng, True)
+def case_path(rng, big=None):
+    return case_cycle(rng, True, big=big)
 
 
-def case_frame_cycle(rng):
+def case_frame_cycle(rng, big=None):
     from cspuz import graph as G
     from cspuz.grid_frame import BoolGridFrame
-    H, W = rng.randint(0, 3), rng.randint(0, 3)
+    H, W = (rng.randint(0, 3), rng.randint(0, 3)) if big is None else (big[1], big[2])
     prim = _prim(rng)
     path = rng.random() < 0.3
     if path:
         prim = True
+    if big is not None:      # (line graph of the model: see case_cycle)
+        prim = path = False
 
     def build(s):
         fr = BoolGridFrame(s, H, W)
@@ -442,10 +523,10 @@ def case_frame_cycle(rng):
     return real, line, {"fn": "single_cycle/path(frame)", "H": H, "W": W, "prim": prim, "path": path}
 
 
-def case_crossable(rng):
+def case_crossable(rng, big=None):
     from cspuz import graph as G
     from cspuz.grid_frame import BoolGridFrame
-    H, W = rng.randint(0, 3), rng.randint(0, 3)
+    H, W = (rng.randint(0, 3), rng.randint(0, 3)) if big is None else (big[1], big[2])
     prim = _prim(rng)
     sc = rng.random() < 0.5
 
@@ -478,17 +559,17 @@ def case_crossable(rng):
                         "frame_offset": b0, "later_vars": extra, "negated_entries": neg}
 
 
-def case_vgborders_frame(rng):
+def case_vgborders_frame(rng, big=None):
     """with_borders through the BoolInnerGridFrame / IntArray2D entry (inner frame dualised to the cell graph)."""
     from cspuz import graph as G
     from cspuz.array import IntArray2D
     from cspuz.grid_frame import BoolInnerGridFrame
-    H, W = rng.randint(1, 3), rng.randint(1, 4)
+    H, W = (rng.randint(1, 3), rng.randint(1, 4)) if big is None else (big[1], big[2])
     prim = _prim(rng)
     st = {}
 
     def build(s):
-        gs = s.int_array((H, W), 1, H * W)
+        gs = IntArray2D(_size_vars(rng, s, H * W, H * W), (H, W))
         st["gs"] = [pexpr(x) for x in gs.data]
         fr = BoolInnerGridFrame(s, H, W)
         return lambda: G.division_connected_variable_groups_with_borders(s, group_size=gs, is_border=fr, use_graph_primitive=prim)
@@ -497,16 +578,16 @@ def case_vgborders_frame(rng):
     return real, line, {"fn": "with_borders(frame)", "H": H, "W": W, "prim": prim}
 
 
-def case_vgroups_shape(rng):
+def case_vgroups_shape(rng, big=None):
     """variable groups with the grid inferred from a 2-D group_size (IntArray2D or list of lists), shape omitted."""
     from cspuz import graph as G
     from cspuz.array import IntArray2D
-    H, W = rng.randint(1, 3), rng.randint(1, 3)
+    H, W = (rng.randint(1, 3), rng.randint(1, 3)) if big is None else (big[1], big[2])
     n = H * W
     st = {}
 
     def build(s):
-        ints = [s.int_var(1, n) for _ in range(n)]
+        ints = _size_vars(rng, s, n, n)
         kind = rng.random()
         if kind < 0.5:
             gs = IntArray2D(ints, (H, W))
@@ -533,7 +614,8 @@ def replay_case(data):
     st = data["rng_state"]
     rng.setstate((st[0], tuple(st[1]), st[2]))
     fn = globals()[data["casefn"]]
-    real, line, desc = fn(rng)
+    big = data.get("big")
+    real, line, desc = fn(rng) if big is None else fn(rng, big=tuple(big))
     if real[0] == "err":
         return core.Finding("raises:replay", "%s still raises %s" % (desc, real[1]), data)
     return None
